@@ -41,11 +41,13 @@ def budget(tier):
 def strategy(tier):
     geom = st.tuples(st.one_of(st.integers(1, 8), st.integers(1, 60)),
                      st.one_of(st.sampled_from([0.5, 0.3, 0.1, 0.05, 0.01, 0.001]), gen.fpr_st(9.0)))
-    rel = st.sampled_from(["compat", "compat", "compat", "identical", "empty", "geom", "hash", "foreign"])
+    rel = st.sampled_from(["compat", "compat", "compat", "identical", "empty", "geom", "geom_bits", "hash", "foreign"])
     common = {"rel": rel, "hash": gen.hash_name_st(), "hash2": gen.hash_name_st(), "pool": gen.pool_st(2, 10),
               "sa": so.stream_st(False), "sb": so.stream_st(False), "foreign": st.integers(0, 5),
               "sx": so.stream_st(False, max_len=5), "derive": st.sampled_from([None, None, "ia", "ua", "ib", "ub"]),
-              "round2": st.sampled_from([None, None, "a", "b"])}
+              "round2": st.sampled_from([None, None, "a", "b"]),
+              "va": st.sampled_from(so.OPERAND_VARIANTS), "vb": st.sampled_from(so.OPERAND_VARIANTS), "nudge": st.sampled_from([0, 0, 0, 1]),
+              "frac": st.sampled_from([0, 0, 0, 0, 0, 0.5, 0.25]), "fixed8": st.booleans()}
     bloom = st.fixed_dictionaries(dict(common, t=st.just("bloom"), geom=geom, geom2=geom,
                                        ka=st.sampled_from(["bloom", "ondisk"]), kb=st.sampled_from(["bloom", "ondisk"])))
     cb = st.fixed_dictionaries(dict(common, t=st.just("cbloom"), geom=geom, geom2=geom))
@@ -79,6 +81,8 @@ def run_case(case, ctx):
     ctx.soft_noexc = True
     ra, _ = so.resolve(case["sa"], len(pool))
     rb, _ = so.resolve(case["sb"], len(pool))
+    if rel == "geom_bits" and t == "cms":
+        rel = "geom"
     if rel == "identical":
         rb = list(ra)
     if rel == "empty":
@@ -117,6 +121,34 @@ def run_case(case, ctx):
             ka, kb = ("counting", "counting") if counting else (case["ka"], case["kb"])
             est, fpr = case["geom"]
             est2, fpr2 = case["geom2"] if rel == "geom" else case["geom"]
+            frac, va, vb = case.get("frac") or 0, case.get("va", "same"), case.get("vb", "same")
+            if counting:
+                va, vb = (v if v in ("reload", "hex", "zero") else "same" for v in (va, vb))
+            if rel == "geom_bits":
+                # the SAME number of bits with a different number of hashes: (2n, p) and (n, p*p) - m = -n ln p / ln^2 2 is equal,
+                # k doubles.  Only the hash-count comparison tells such a pair apart when the hash strategy returns a fixed-length
+                # list (>= depth values, which the plain and on-disk filters accept: they read the first number_hashes entries)
+                est, est2, fpr2 = 2 * est, est, fpr * fpr
+                if case.get("fixed8") and not counting:
+                    h1 = h2 = "fixed8"
+                rel = "geom"
+                ctx.feat("pair_same_bits_different_hashes")
+            if frac and rel in ("compat", "identical", "empty"):
+                # fractional est_elements: accepted by the in-memory constructors, not exportable on the pinned tree (see C12)
+                est = est2 = est + frac
+                if not counting:
+                    ka = kb = "bloom"
+                va = va if va == "zero" else "same"
+                vb = vb if vb == "zero" else "same"
+                ctx.feat("fractional_est_elements")
+            else:
+                frac = 0
+            if case.get("nudge") and rel in ("compat", "identical", "empty"):
+                p2_ = so.same_geometry_rate(est, fpr)
+                if p2_ is not None:
+                    fpr2 = p2_
+                    ctx.feat("operands_same_geometry_different_nominal_rate")
+            snap = (lambda o, k: (so.cells(o, k), o.elements_added)) if frac else (lambda o, k: bytes(o))
             try:
                 A = so.make_bloom(ctx, ka, est, fpr, h1, "a")
                 objs.append(A)
@@ -128,6 +160,9 @@ def run_case(case, ctx):
                     raise
                 ctx.feat("rejected_params")
                 return
+            ha2 = so.second_handle(ctx, A, ka, h1) if va == "handle2" else None
+            hb2 = so.second_handle(ctx, B, kb, h2) if vb == "handle2" else None
+            objs.extend(h for h in (ha2, hb2) if h is not None)
             so.feed(A, ka, pool, ra)
             so.feed(B, kb, pool, rb)
             der = case.get("derive")
@@ -146,7 +181,22 @@ def run_case(case, ctx):
                     ctx.feat("derived_operand_" + der)
                     if prod.elements_added == 0 and any(so.cells(prod, "counting" if counting else "bloom")):
                         ctx.feat("derived_operand_bits_set_but_zero_count")
-            ba, bb = bytes(A), bytes(B)
+            # the operands as they reach the operation in real use (reloaded, reopened on disk, counter reassigned, second handle)
+            if ha2 is not None and A is objs[0]:
+                A = ha2
+                ctx.feat("operand_second_live_handle")
+            elif va not in ("same", "handle2"):
+                A, ka, extra = so.operand_variant(ctx, A, ka, va, h1, "a")
+                objs.extend(extra)
+                ctx.feat("operand_" + va)
+            if hb2 is not None and B is objs[1]:
+                B = hb2
+                ctx.feat("operand_second_live_handle")
+            elif vb not in ("same", "handle2"):
+                B, kb, extra = so.operand_variant(ctx, B, kb, vb, h2, "b")
+                objs.extend(extra)
+                ctx.feat("operand_" + vb)
+            ba, bb = snap(A, ka), snap(B, kb)
             ca, cb_ = so.cells(A, ka), so.cells(B, kb)
             if rel == "foreign":
                 F = _foreign(case["foreign"])
@@ -189,7 +239,7 @@ def run_case(case, ctx):
                     JS = ctx.call(noexc, A.jaccard_index, A)
                     ctx.check("C13.jaccard", JS == 1.0, f"jaccard_index of a filter with itself is {JS!r}")
                     ctx.nt(inter > 0 and (pa > inter or pb > inter))
-                    ctx.check("C13.unmodified", bytes(A) == ba and bytes(B) == bb, "a set operation modified an operand")
+                    ctx.check("C13.unmodified", snap(A, ka) == ba and snap(B, kb) == bb, "a set operation modified an operand")
                     if case.get("round2") and hasattr(B, "clear"):
                         # second round on the SAME objects: clear one operand, add a few keys, and ask again - whatever an operand
                         # may have cached during the first round is stale now
@@ -197,7 +247,7 @@ def run_case(case, ctx):
                         ctx.call(noexc, tgt.clear)
                         rx2, _ = so.resolve(case.get("sx", []), len(pool))
                         so.feed(tgt, tk, pool, [[k, abs(n)] for k, n in rx2])
-                        ba, bb = bytes(A), bytes(B)
+                        ba, bb = snap(A, ka), snap(B, kb)
                         ca, cb_ = so.cells(A, ka), so.cells(B, kb)
                         inter, union, pa, pb = _popcounts(ca, cb_, counting)
                         I2 = ctx.call(noexc, A.intersection, B)
@@ -214,7 +264,7 @@ def run_case(case, ctx):
                         wantj = 1.0 if union == 0 else inter / union
                         ctx.check("C13.jaccard", abs(J3 - wantj) <= 1e-12 and J3 == J4, lambda: f"second round: jaccard_index {J3!r}/{J4!r} != {inter}/{union}")
                         ctx.feat("second_round_" + case["round2"])
-            ctx.check("C13.unmodified", bytes(A) == ba and bytes(B) == bb, "a set operation modified an operand")
+            ctx.check("C13.unmodified", snap(A, ka) == ba and snap(B, kb) == bb, "a set operation modified an operand")
             ctx.feat("%s_%s_%s_%s" % (t, rel, ka, kb))
         ctx.feat("hash_" + h1)
         ctx.op(t, rel, case.get("geom"), case.get("geom2"), h1, h2, case.get("ka"), case.get("kb"), case["pool"], ra, rb, case["foreign"])
